@@ -41,6 +41,7 @@ Op ==
   \/ E.k = "next_rtc" /\ NextRtc(E.log)
   \/ E.k = "is_in" /\ IsIn(E.arg, E.log)
   \/ E.k = "child_state" /\ ChildState(E.arg, E.log)
+  \/ E.k = "circuit_end" /\ CircuitEnd
   \/ E.k = "clear_spy" /\ ClearSpy
   \/ E.k = "clear_trace" /\ ClearTrace
 
@@ -53,7 +54,15 @@ ExpOutcome == IF Faults THEN "raised:ChartFault"
               ELSE IF E.k = "child_state" THEN "raised:AssertionError" ELSE "raised:HsmTopologyException"
 
 (* the clauses; each is TRUE when the observation agrees with the specification *)
-C_Outcome == E.outcome = ExpOutcome
+(* fault "nosuper" (C24): one state returns no status when it is asked for its super state (a handler without a final else     *)
+(* clause).  Whenever the processor has to ask it, the op must raise HsmTopologyException - never hang, never fail otherwise;     *)
+(* when it does not have to, the op behaves as on the well-formed chart.  start_at(S) has to ask every state enclosing S.          *)
+NoSuper   == chart.bad # <<>> /\ chart.bad[1] = "nosuper"
+MustRaise == NoSuper /\ E.k = "start" /\ chart.bad[2] \in SeqSet(Up(chart.par, E.arg))
+C_Outcome == IF NoSuper /\ E.k # "child_state"
+             THEN E.outcome \in {"ok", "raised:HsmTopologyException"} /\ (MustRaise => E.outcome # "ok")
+             ELSE IF NoSuper THEN E.outcome \in {ExpOutcome, "raised:HsmTopologyException"}
+             ELSE E.outcome = ExpOutcome
 C_Calls   == IF Static THEN SigSt(Visible(E.log)) = SigSt(SelectSeq(alog', Registered))
              ELSE SigSt(Visible(E.log)) = SigSt(alog')
 C_SpyCalls == (Static /\ Instr /\ StepOp) => Visible(E.spycalls) = SigSt(alog')
@@ -68,14 +77,19 @@ C_Ret     == CASE E.k = "next_rtc" -> E.ret = res'
                [] E.k = "recall" -> (Len(E.marks) = 1 /\ E.marks[1][2] = res')
                [] OTHER -> TRUE
 C_Instr   == (started' /\ chart.host # "plain") => E.instr = Instr
-C_Rtc     == (started' /\ Instr /\ ~Static) => E.rtc = rtc'
-C_Full    == (started' /\ Instr /\ ~Static) => E.full = full'
-C_Trc     == (started' /\ Instr) => E.trc = trc'
-C_LiveS   == E.live_spy = liveS'
-C_LiveT   == E.live_trc = liveT'
+(* a second start_at on a running INSTRUMENTED chart: what the spy, the trace and the live output record for it is not specified *)
+(* by any property (the harness only does it as the last op of a sequence); the chart's behaviour (Calls, Cur, Outcome) is        *)
+Restart   == E.k = "start" /\ started
+C_Rtc     == (started' /\ Instr /\ ~Static /\ ~Restart) => E.rtc = rtc'
+C_Full    == (started' /\ Instr /\ ~Static /\ ~Restart) => E.full = full'
+C_Trc     == (started' /\ Instr /\ ~Restart) => E.trc = trc'
+C_LiveS   == Restart \/ E.live_spy = liveS'
+C_LiveT   == Restart \/ E.live_trc = liveT'
 ProjQ(s)  == [i \in 1..Len(s) |-> <<s[i][1], s[i][2]>>]
 C_Q       == Queued => ProjQ(E.q) = q'
 C_DQ      == Queued => ProjQ(E.dq) = dq'
+(* C14: complete_circuit returns only when the queue is empty *)
+C_Circuit == E.k = "circuit_end" => (q' = <<>> /\ E.q = <<>>)
 C_Did     == (E.k = "next_rtc" /\ did' # 0) =>
                \A i \in 1..Len(E.log) : E.log[i][1] \in SeqSet(chart.sigs) => E.log[i][5] = did'
 
@@ -95,7 +109,7 @@ Failing ==
      \cup (IF C_Trc THEN {} ELSE {"Trc"}) \cup (IF C_LiveS THEN {} ELSE {"LiveS"})
      \cup (IF C_LiveT THEN {} ELSE {"LiveT"}) \cup (IF C_Q THEN {} ELSE {"Q"})
      \cup (IF C_DQ THEN {} ELSE {"DQ"}) \cup (IF C_Did THEN {} ELSE {"Did"})
-     \cup (IF C_SpyCalls THEN {} ELSE {"SpyCalls"})
+     \cup (IF C_SpyCalls THEN {} ELSE {"SpyCalls"}) \cup (IF C_Circuit THEN {} ELSE {"Circuit"})
 
 Kind == IF StepOp /\ ~Raises /\ started /\ E.k # "start"
         THEN (IF cur' # cur \/ \E i \in 1..Len(alog') : alog'[i][1] = "EXIT_SIGNAL" THEN "tran" ELSE "stay")
@@ -107,14 +121,14 @@ StepProp == CASE Kind = "start" -> "C03" [] Kind = "tran" -> "C01" [] Kind = "st
               [] E.k \in {"dispatch", "next_rtc"} -> "C01" [] OTHER -> "C14"
 PropOf(c) ==
   CASE c \in {"Calls", "Cur"} -> StepProp
-    [] c = "Outcome" -> IF ExpOutcome \notin {"ok", "raised:ChartFault"} /\ E.k # "child_state" THEN "C24" ELSE StepProp
+    [] c = "Outcome" -> IF (NoSuper \/ ExpOutcome \notin {"ok", "raised:ChartFault"}) /\ E.k # "child_state" THEN "C24" ELSE StepProp
     [] c = "Marks" -> IF E.k = "recall" THEN "C15" ELSE "C14"
     [] c \in {"Name", "CurState"} -> "C23"
     [] c = "Ret" -> IF E.k = "next_rtc" THEN "C14" ELSE IF E.k = "recall" THEN "C15" ELSE "C22"
     [] c \in {"Instr", "Rtc", "Full"} -> "C19"
     [] c = "Trc" -> "C20"
     [] c \in {"LiveS", "LiveT"} -> "C21"
-    [] c \in {"Q", "Did"} -> "C14"
+    [] c \in {"Q", "Did", "Circuit"} -> "C14"
     [] c = "DQ" -> "C15"
     [] OTHER -> "C17"
 (* FOCUS = a property id: only clauses that speak about that property end the trace; the    *)
@@ -128,7 +142,8 @@ Report ==
   IF bad' # {}
   THEN PrintT(ToJson([tid |-> All[tid].tid, at |-> l, k |-> E.k, kind |-> Kind, bad |-> bad',
                       exp |-> [alog |-> alog', cur |-> cur', res |-> res', rtc |-> rtc', trc |-> trc',
-                               q |-> q', dq |-> dq', liveT |-> liveT', outcome |-> ExpOutcome]]))
+                               q |-> q', dq |-> dq', liveT |-> liveT',
+                               outcome |-> IF NoSuper THEN "ok or raised:HsmTopologyException" ELSE ExpOutcome]]))
   ELSE IF l = Len(Tr) THEN PrintT(ToJson([tid |-> All[tid].tid, done |-> l])) ELSE TRUE
 
 TNext == /\ bad = {} /\ l <= Len(Tr)
